@@ -78,6 +78,29 @@ CLAIMED = {
              'are insertion-ordered in the code (refuted example in the file, known finding K2, not yet replayed)',
         technique='Coq proof (sorted-permutation uniqueness, sort/map commutation) + differential correspondence via vm_compute',
         ref='DESIGN.md section 5, C02'),
+    'C03': dict(
+        category='proof',
+        text='The full statement is refuted in Coq by a witness replayed on the implementation on every run (K1: strings '
+             'are quoted without escaping, so two unequal lists of strings share one text - kept as an open known finding). '
+             'Proved on the fragment where it holds (a computable predicate: identifier parameter names, JSON-like values '
+             'of any depth whose strings and mapping keys contain no quote, no Path parameters): the value text is uniquely '
+             'readable (equal texts -> values equal up to mapping-key order), the parameter text determines the persisted '
+             '(name, value) list, the key text determines that list and the (input name, input key) pairs, and - the hash '
+             'chain - in two chains on whose key texts the hash does not collide, tasks with one key have one computation '
+             'signature (persisted parameter values and, recursively under each input name, the signature of the input), '
+             'so a change of any persisted value at any distance upstream changes the key; different keys of one task class '
+             'are different locations; the keys meant are the keys construction assigns (KeyOf, C13) and SHA-256 hex output '
+             'satisfies the character hypothesis. Correspondence: pairs of registry assignments built by separator-, quoting- '
+             'and nesting-aware mutations (text equality, persisted-list equality and fragment membership, model vs '
+             'implementation), pairs of whole pipelines with one configured value edited (every task whose reference '
+             'descriptor changes must move; two computations of one task in one chain must not share a key), and whole-chain '
+             'keys against the model and the frozen scheme.',
+        note='partial: strings with quote characters (refuted, K1), Path parameters and parameter objects are outside the '
+             'proved fragment - there only the differential oracle applies; collision-freedom of the truncated SHA-256 on '
+             'the texts of the chains compared is a hypothesis.',
+        technique='Coq proof (unique readability by structural induction with follow sets, injectivity of the joined texts, '
+                  'mutual induction over the key derivation of the DAG) + differential pairs via vm_compute + pipeline-pair oracle',
+        ref='DESIGN.md section 5, C03'),
     'C04': dict(
         category='proof',
         text='Theorems about the evaluation machine: a result held by the task object is served with no change at all; a '
